@@ -22,7 +22,7 @@ def _boom(v):
 
 
 TYPED = MessageType("typed", [Field("x", _boom, "a field whose serializer raises")], "a typed message")
-KIND = {"eliot:destination_failure": "rep", "eliot:traceback": "tb", "eliot:serialization_failure": "sf", "m": "msg", "to": "to", "raw": "raw"}
+KIND = {"eliot:destination_failure": "rep", "eliot:traceback": "tb", "eliot:serialization_failure": "sf", "m": "msg", "to": "to", "raw": "raw", "alog": "alog"}
 
 
 def project(m):
@@ -77,6 +77,19 @@ def run_snapshot(ops):
                 lg[op[1]].write({"message_type": "raw", "f": 1})
             elif name == "SerFail":
                 TYPED(x=1).write(lg[op[1]])
+            elif name == "ActLog":
+                if style % 2:
+                    stack[op[1] - 1].log(message_type="alog", f=1)
+                else:
+                    Message.new(message_type="alog", f=1).write(action=stack[op[1] - 1])
+            elif name == "TbTo":
+                try:
+                    raise KeyError("for write_traceback")
+                except KeyError:
+                    if op[1] == "def":
+                        eliot.write_traceback()
+                    else:
+                        eliot.write_traceback(lg[op[1]]) if style % 2 else eliot.write_traceback(logger=lg[op[1]])
             elif name == "SetFail":
                 flaky.failnext = True
             else:
